@@ -1,4 +1,5 @@
 (* C04 — Sharing through the node cache is transparent and effective.  Property theorems only. *)
+From CsModel Require Extracted.
 From CsModel Require Import BuilderSpec BuilderProofs.
 
 Theorem C04_cache_transparent : forall static_text (H : list hw -> N) threshold debug c ops t,
@@ -27,3 +28,9 @@ Theorem C04_lookup_sound : forall static_text (H : list hw -> N) threshold c k c
   WfGreen static_text H (c_strs c) g /\ CacheInv static_text H c' /\ c_strs c' = c_strs c.
 Proof. exact cache_node_sound. Qed.
 Print Assumptions C04_lookup_sound.
+
+(* every source fact this property's model depends on was found by the translator in the current
+   source (otherwise the model would be running on the values the proofs were written for) *)
+Theorem C04_facts_extracted : CsModel.Extracted.facts_found_C04 = true.
+Proof. reflexivity. Qed.
+Print Assumptions C04_facts_extracted.
